@@ -340,7 +340,10 @@ where
         I: IntoIterator<Item = &'a SpannedExpr<'ast, Symbol>>,
     {
         let (_, expr) = self.select_spanned(iter, |e| e.span);
-        self.visit_expr(expr.unwrap());
+        // `iter` is empty for an empty array literal
+        if let Some(expr) = expr {
+            self.visit_expr(expr);
+        }
     }
 
     fn visit_any<I>(&mut self, iter: I)
